@@ -423,6 +423,11 @@ def runner_cleanup(u: U):
                 "idle connections are closed (pre_shutdown) before the shutdown hooks, handlers drain afterwards, "
                 f"cleanup comes last: {got}")
         sd = [e for e in log if e[0] == "server.shutdown"]
+        u.check("C20.runner.connections_closed_even_if_hook_raises", len(sd) == 1,
+                "every connection is closed when cleanup ends: Server.shutdown (drain, then close what is left) runs "
+                "exactly once also when an on_shutdown handler raises - otherwise the accepted connections stay open "
+                "behind a runner that has forgotten its server",
+                known=[("F20e", bool("app.shutdown" in names and not sd))], witness={"log": names})
         if sd:
             u.check("C20.runner.drain_uses_shutdown_timeout", sd[0][1] is timeout, "the drain gets the configured timeout")
     if not has_server:
